@@ -55,7 +55,7 @@ func c06() {
 					for _, d := range D {
 						for _, fk := range []string{"loads", "jumps", "mixed"} {
 							for _, tk := range []string{"ret", "ld"} {
-								if run.Thorough() || r0.Intn(90) == 0 {
+								if (run.Thorough() && (vlib.SubRun() == "" || r0.Intn(4) == 0)) || (!run.Thorough() && r0.Intn(90) == 0) {
 									twos = append(twos, twoJ{g, a, b, c, d, fk, tk})
 								}
 							}
@@ -65,15 +65,10 @@ func c06() {
 			}
 		}
 	}
-	for _, tj := range twos {
-		if ops, ok := vlib.TwoJumpProgram(tj.g, tj.a, tj.b, tj.c, tj.d, tj.fill, tj.tk); ok {
-			cat = append(cat, ops)
-			catDesc = append(catDesc, fmt.Sprintf("two jumps: A@0 true=+%d false=+%d, B@%d true=+%d false=+%d, fill=%s targets=%s", tj.a, tj.b, tj.g, tj.c, tj.d, tj.fill, tj.tk))
-		}
-	}
+	// the two-jump programs are built when their turn comes (half a million of them do not fit a 32-bit address space at once)
 	run.Count("two_jump_interaction_programs", int64(len(twos)))
 	nRandom := run.N(40000, 1500000)
-	total := len(cat) + nRandom
+	total := len(cat) + len(twos) + nRandom
 
 	var mu sync.Mutex
 	var pairs, bridgedProgs, jaBr, retBr int64
@@ -87,6 +82,13 @@ func c06() {
 		desc := ""
 		if i < len(cat) {
 			ops, desc = cat[i], catDesc[i]
+		} else if i < len(cat)+len(twos) {
+			tj := twos[i-len(cat)]
+			var ok bool
+			if ops, ok = vlib.TwoJumpProgram(tj.g, tj.a, tj.b, tj.c, tj.d, tj.fill, tj.tk); !ok {
+				return
+			}
+			desc = fmt.Sprintf("two jumps: A@0 true=+%d false=+%d, B@%d true=+%d false=+%d, fill=%s targets=%s", tj.a, tj.b, tj.g, tj.c, tj.d, tj.fill, tj.tk)
 		} else {
 			n := 2 + r.Intn(700)
 			switch r.Intn(6) {
